@@ -191,3 +191,21 @@ Theorem C18_code_tie_CreateNotification :
       end.
 Proof. exact h_create_is_the_interpretation. Qed.
 Print Assumptions C18_code_tie_CreateNotification.
+
+(* DeleteNotification and BlockSenders, generated from the current source: deleting is one removal under the signer's
+   own inbox key and never fails; blocking writes, sender after sender, one entry under the signer's own list and
+   fails as a whole at the first sender that does not resolve *)
+Theorem C18_code_tie_DeleteNotification_and_BlockSenders :
+  forall s cr from t blocker target rest,
+    h_delete s cr from t =
+      match gen_DeleteNotification with
+      | GVal ([_], true) => (kv_del s (nkey (sg_name cr) from t), Ok)
+      | _ => (s, Fail)
+      end /\
+    h_block_loop s blocker (target :: rest) =
+      match gen_BlockOne (match target with Some _ => true | None => false end), target with
+      | GVal (_, true), Some a => h_block_loop (kv_set s (bkey blocker a) (block_entry blocker a)) blocker rest
+      | _, _ => (s, Fail)
+      end.
+Proof. intros. split; [apply h_delete_is_the_interpretation | apply h_block_loop_is_the_interpretation]. Qed.
+Print Assumptions C18_code_tie_DeleteNotification_and_BlockSenders.
